@@ -10,28 +10,41 @@ except ImportError:
     pass
 
 
-def run_scripts(ctx, scripts):
-    """scripts: list of (case_id, script).  Returns list of (case_id, script, impl_lines, model_lines or None)."""
-    res = []
-    impl_all = []
-    for cid, script in scripts:
-        impl_all.append(pat_impl.run_impl(script))
+def _run_chunk(args):
+    """worker: implementation + model driver on one chunk of scripts"""
+    scripts, model_available = args
+    from . import common
+    impl_all = [pat_impl.run_impl(script) for cid, script in scripts]      # (stochastic nodes get their tapes written here)
     model_all = None
-    if ctx.model_available:
+    if model_available:
         lines = []
+        counts = []
         for cid, script in scripts:
+            ml = pat_impl.model_lines(script)
             lines.append("clear")
-            lines.extend(pat_impl.model_lines(script))
-        out = ctx.driver("pat", lines)
+            lines.extend(ml)
+            counts.append(len(ml))
+        out = common.run_driver("pat", "\n".join(lines) + "\n")
         model_all = []
         k = 0
-        for cid, script in scripts:
-            n = len(pat_impl.model_lines(script))
+        for n in counts:
             model_all.append(out[k + 1:k + 1 + n])
             k += 1 + n
-    for i, (cid, script) in enumerate(scripts):
-        res.append((cid, script, impl_all[i], model_all[i] if model_all is not None else None))
-    return res
+    return [(cid, script, impl_all[i], model_all[i] if model_all is not None else None) for i, (cid, script) in enumerate(scripts)]
+
+
+def run_scripts(ctx, scripts, chunk=400):
+    """scripts: list of (case_id, script).  Returns list of (case_id, script, impl_lines, model_lines or None).
+    Large batches are sharded over the cores (each worker runs the implementation and its own driver process)."""
+    import multiprocessing as mp
+    import os
+    if len(scripts) <= 2 * chunk:
+        return _run_chunk((scripts, ctx.model_available))
+    jobs = [(scripts[i:i + chunk], ctx.model_available) for i in range(0, len(scripts), chunk)]
+    procs = min(16, os.cpu_count() or 1, len(jobs))
+    with mp.get_context("fork").Pool(procs) as pool:
+        chunks = pool.map(_run_chunk, jobs, chunksize=1)
+    return [r for ch in chunks for r in ch]
 
 
 def first_mismatch(impl, model):
